@@ -253,6 +253,57 @@ def run(ctx):
                     if not ctx.thorough and (si + ri_ + len(before)) % 2: continue
                     add_pair('idle_settings_then_reset', list(before) + list(st_), rv, dr, [], False, meta={'settings': st_})
 
+    # ---------------------------------------------------------------- F5c: the 64k table limit must not depend on the allocator's history:
+    # tables pushed across the limit on a fresh builder, after a warm-up that grew the data stack beyond 64k (then any reset), and
+    # below a large frame of the same buffer; refused at the same call everywhere (GUARD stops at the first refusal)
+    def limit_table(kind, inner=False):
+        t_ = Script()
+        if kind == 'k1000':
+            t_.emit('st:70')
+            for i in range(68): t_.emit('ta:%d:1000:4:%s' % (i, 'ab' * 8))
+        elif kind == 'k8':
+            t_.emit('st:8300')
+            for i in range(8250): t_.emit('ta:%d:8:8:0102030405060708' % i)
+        elif kind == 'offsets':
+            sref = t_.emit('cS:6162'); t_.emit('st:16500')
+            for i in range(16420): t_.emit('to:%d:$%d' % (i, sref))
+        elif kind == 'huge_field':
+            t_.emit('st:3'); t_.emit('ta:0:4:4:01000000'); t_.emit('ta:1:70000:4:' + 'cd' * 16); t_.emit('ta:2:65531:1:' + 'ef' * 16)
+        elif kind == 'mixed':
+            t_.emit('st:40')
+            for i in range(3): t_.emit('ta:%d:20000:8:%s' % (i, '99' * 8))
+            for i in range(3, 30): t_.emit('ta:%d:%d:4:%s' % (i, (1, 2, 4, 400, 1500)[i % 5], '77' * 4))
+        t_.emit('et')
+        if inner:
+            # a child frame (string) is opened and closed while the table is open: exit_frame recomputes the parent's data stack window
+            # from the CHILD's type limit, so the window of the open table may exceed 64k from here on
+            j = next(i for i, x in enumerate(t_.ops) if x.startswith('st:')) + 1
+            cnt = int(t_.ops[j - 1].split(':')[1])
+            def shift(tok, n): return re.sub(r'\$(\d+)', lambda m: '$' + str(int(m.group(1)) + n if int(m.group(1)) >= j else int(m.group(1))), tok)
+            t_.ops = t_.ops[:j] + ['sS', 'aS:696e6e6572', 'eS', 'to:%d:$%d' % (cnt - 1, j + 2)] + [shift(x, 4) for x in t_.ops[j:]]
+        return t_
+    def limit_build(kind, below_big_frame=False, inner=False):
+        b_ = Script(['GUARD']); b_.emit('sb:0:0:0')
+        if below_big_frame:
+            # a 100 kB string is started and ended first in the same buffer: the data stack window is already larger than 64k
+            b_.emit('st:2'); b_.emit('sS'); b_.emit('aS:' + '41' * 100000); sk = b_.emit('eS'); b_.emit('to:0:$%d' % sk)
+        b_.extend(limit_table(kind, inner))
+        b_.emit('REC')
+        return b_
+    warm = ['sb:0:0:0', 'st:1', 'sS', 'aS:' + '42' * 100000, 'eS', 'to:0:$4', 'et', 'eb:$6']
+    warm_v = ['sb:0:0:0', 'sv:1:1:4294967295', 'xv:90000:' + '43' * 90000]          # abandoned inside a 90 kB vector
+    li = 0
+    for kind in ('k1000', 'k8', 'offsets', 'huge_field', 'mixed'):
+        for pre in ([], warm, warm_v):
+            for rv in (RESET_VARIANTS if ctx.thorough else (RESET_VARIANTS[li % 4],)):
+                li += 1
+                add_pair('table_limit', pre, rv, limit_build(kind), [], kind in ('k1000', 'huge_field', 'mixed'), meta={'kind': kind})   # the extracted model is quadratic in the table size
+        for pre in ([], warm, warm_v):
+            li += 1
+            add_pair('table_limit', pre, RESET_VARIANTS[li % 4], limit_build(kind, inner=True), [], kind in ('k1000', 'huge_field', 'mixed'), meta={'kind': kind, 'inner_child': True})
+        add_pair('table_limit', [], 'rs:0:0', limit_build(kind, below_big_frame=True, inner=True), [], kind in ('k1000', 'huge_field', 'mixed'), meta={'kind': kind, 'below_big_frame': True, 'inner_child': True})
+        add_pair('table_limit', [], 'rs:0:0', limit_build(kind, below_big_frame=True), [], kind in ('k1000', 'huge_field', 'mixed'), meta={'kind': kind, 'below_big_frame': True})
+
     # ---------------------------------------------------------------- F6: pooled emitter pages reused at BOTH ends after reset
     def many_vtables(ntab, first=0):
         """top-level buffer with ntab tables of pairwise distinct vtables (table i has its single field at id i): the clustered
@@ -529,6 +580,14 @@ def run(ctx):
         if len(ta) < 2 or not tb: continue
         fa, fb = ta[-2], tb[-1]
         nbytes += 1
+        if ca.klass == 'table_limit':
+            # same outcome of every call of the reference build (which call is refused) as on the fresh builder
+            na = len(tb) - 1 - next(i for i, t in enumerate(tb) if t.startswith('{'))      # tokens after the fresh builder's snapshot
+            ra, rb = ta[-2 - (na - 1):-2], tb[-1 - (na - 1):-1]
+            if ra != rb:
+                j = next((i for i, (x, y) in enumerate(zip(ra, rb)) if x != y), 0)
+                ctx.violation('table-limit-depends-on-history', 'after %s (%s) call %d of the reference table build returns %s, on a fresh builder %s: the 64k table limit depends on earlier activity' % (
+                                  ca.klass, ca.meta.get('reset'), j, ra[j], rb[j]), {'harness_line': ca.impl_line()[:6000], 'fresh_line': cb.impl_line()[:6000], 'kind': ca.meta.get('kind')})
         # reset_equiv observed directly: state right after reset vs. state of the freshly initialised (and configured) builder
         sa = [parse_snap(t) for t in ta if t.startswith('{')]
         sb_ = [parse_snap(t) for t in tb if t.startswith('{')]
@@ -541,7 +600,7 @@ def run(ctx):
                 ctx.violation(key, 'after %s (%s) the builder field %s is %s; a freshly initialised builder with the same settings has %s' % (
                                   ca.klass, ca.meta.get('reset'), f, ar.get(f), fr0.get(f)),
                               {'harness_line': ca.impl_line(), 'fresh_line': cb.impl_line(), 'fields': {x: (ar.get(x), fr0.get(x)) for x in bad}})
-        if fb in ('FINFAIL', 'COPYFAIL') or (fb == '-' and not cb.klass.startswith('json') and not cb.klass.startswith('idle_settings')):
+        if fb in ('FINFAIL', 'COPYFAIL') or (fb == '-' and not cb.klass.startswith('json') and not cb.klass.startswith('idle_settings') and not cb.klass.startswith('table_limit')):
             ctx.violation('reference-build-failed:' + cb.klass, 'reference build on a fresh builder produced no buffer', {'harness_line': cb.impl_line()})
             continue
         if fa != fb:
